@@ -23,6 +23,7 @@ import (
 	"strconv"
 	"strings"
 	"sync"
+	"syscall"
 	"time"
 
 	"verif/hc"
@@ -71,6 +72,7 @@ func init() {
 	reg(&spec{ID: "C08", Pkg: "./harness/c08", Level: "model_checking", ShardsQ: n, ShardsT: n, DeadQ: 150, DeadT: 1500})
 	tinfo := []instrSpec{{File: "terminfo/terminfo.go", Time: true}}
 	reg(&spec{ID: "C01", Pkg: "./harness/draw", Level: "model_checking", ShardsQ: n, ShardsT: n, DeadQ: 240, DeadT: 2400, Args: []string{"-prop", "C01"}, InstrFiles: tinfo})
+	reg(&spec{ID: "C04", Pkg: "./harness/c04", Level: "model_checking", ShardsQ: n, ShardsT: n, DeadQ: 240, DeadT: 2400, InstrFiles: tinfo})
 	reg(&spec{ID: "C09", Pkg: "./harness/draw", Level: "exploration", ShardsQ: n, ShardsT: n, DeadQ: 240, DeadT: 2400, Args: []string{"-prop", "C09"}, InstrFiles: tinfo})
 	reg(&spec{ID: "C13", Pkg: "./harness/draw", Level: "model_checking", ShardsQ: n, ShardsT: n, DeadQ: 240, DeadT: 2400, Args: []string{"-prop", "C13"}, InstrFiles: tinfo})
 	reg(&spec{ID: "C02", Pkg: "./harness/c02", Level: "exploration", ShardsQ: n, ShardsT: n, DeadQ: 240, DeadT: 1800})
@@ -294,7 +296,17 @@ func runCheck(sp *spec, tier string, extra []string) int {
 			var stderr bytes.Buffer
 			cmd.Stderr = &stderr
 			cmd.Stdout = &stderr
+			// hard stop: a worker that overruns its soft deadline by far is spinning or
+			// deadlocked inside the code under test; it is killed and reported
+			hard := time.AfterFunc(time.Duration(2*dead+180)*time.Second, func() {
+				if cmd.Process != nil {
+					cmd.Process.Signal(syscall.SIGQUIT)
+					time.Sleep(2 * time.Second)
+					cmd.Process.Kill()
+				}
+			})
 			err := cmd.Run()
+			hard.Stop()
 			if err != nil {
 				s := stderr.String()
 				if len(s) > 6000 {
@@ -427,7 +439,7 @@ func runCheck(sp *spec, tier string, extra []string) int {
 		// A worker that died is never silently ignored. A Go panic / fatal error inside the
 		// code under test is a violation (the harnesses recover what they can); anything
 		// else is a broken check.
-		if strings.Contains(c, "panic:") || strings.Contains(c, "fatal error:") || strings.Contains(c, "signal: killed") {
+		if strings.Contains(c, "panic:") || strings.Contains(c, "fatal error:") || strings.Contains(c, "signal: killed") || strings.Contains(c, "SIGQUIT") {
 			v := hc.Violation{Property: sp.ID, Signature: "worker-crash", Desc: c, Replay: map[string]interface{}{"shard": i, "stderr": c}}
 			path := writeReplay(sp.ID, v)
 			fmt.Printf("VIOLATION property=%s replay=%s\n  worker crashed: %s\n", sp.ID, path, firstLines(c, 12))
